@@ -56,6 +56,11 @@ def cases(tier, seed):
                           dmax=5 if tier == 'quick' else 8,
                           variants=VARIANTS if tier != 'quick' else
                           tuple(VARIANTS[(ei + i) % 8] for i in range(3)))
+    # one unbalanced dataset (a class of exactly 4 members) at the largest
+    # dimensionality of the tier, whatever the cycle above produced
+    dss = list(dss) + [dict(dss[0], variant='unbalanced',
+                            d=5 if tier == 'quick' else 8,
+                            seed=dss[0]['seed'] + 17)]
     for di, ds in enumerate(dss):
       full = configs.product(name, ds['d'], ds['classes'])
       if tier == 'quick':
